@@ -182,6 +182,11 @@ impl WordRng {
         }
     }
 }
+impl std::fmt::Debug for WordRng {
+    fn fmt(&self, f: &mut std::fmt::Formatter<'_>) -> std::fmt::Result {
+        write!(f, "WordRng")
+    }
+}
 impl RngCore for WordRng {
     fn next_u32(&mut self) -> u32 {
         self.word() as u32
